@@ -89,7 +89,8 @@ def reclamp_cn(spec):
     import math
     from ..domain import SOIL_CN
     soil = spec["soil"]
-    cn = (soil.get("kwargs") or {}).get("cn") or (61 if soil["type"] == "custom" else SOIL_CN[soil["type"]])
+    from ..gen import soil_cn
+    cn = soil_cn(soil)
     hi = math.floor((100.0 / cn - 1) * 100)
     lo = math.ceil((20.0 / cn - 1) * 100)
     for key in ("field", "fallow_field"):
